@@ -8,6 +8,7 @@ exactly once (by its final owner), never by the encoder; non-zero OS codes survi
 PROP = "C13"
 PROP_V = "props/C13.v"
 HARNESS = "rt"
+COUNT_ROWS = True
 SHRINK = True
 RULE = ("every (error type, shape) with payload / OS code drawn from boundary values {0,+-1,i32::MIN,i32::MAX,0xffff,..} and random "
         "i32s; non-trivial = every case (each is a distinct value/shape combination); distinct by exact text")
